@@ -20,6 +20,9 @@ stimuli
                   acknowledgement - TAKEOWNERSHIP, RESETCONF, the TorConfig bootstrap's SETEVENTS / GETINFO
                   config/names / config/defaults / GETCONF ... / GETINFO onions/current - is held back until
                   answered normally / rejected with 552, so that events can arrive at every position of it
+    (plo is, per case, a BOOTSTRAP event below 100 % - also PROGRESS=10, the WARN form with WARNING/REASON/
+    COUNT/RECOMMENDATION/HOSTID/HOSTADDR fields - or one of Tor's other STATUS_CLIENT events: CIRCUIT_ESTABLISHED,
+    CIRCUIT_NOT_ESTABLISHED, ENOUGH_DIR_INFO, NOT_ENOUGH_DIR_INFO, DANGEROUS_SOCKS, CONSENSUS_ARRIVED)
     plo / p100    650 STATUS_CLIENT NOTICE BOOTSTRAP PROGRESS=<n> / =100 from FakeTor (on every live,
                   subscribed control connection - each connection is its own FakeTor instance)
     tmo   the virtual clock reaches launch time + timeout exactly (every other stimulus happens "pace"
@@ -127,7 +130,7 @@ FLOORS = {
               "control_connections_retried": 80, "control_connections_dropped_mid_ownership": 600,
               "dialogue_commands_stalled": 30, "late_observers_compared_with_first_outcome": 10000,
               "timeouts_judged_after_failed_attempts_at_later_instants": 300,
-              "rejected_launches_judged": 20, "process_exits_with_pipes_still_open": 100,
+              "other_status_client_events": 2000, "rejected_launches_judged": 20, "process_exits_with_pipes_still_open": 100,
               "deadline_passed_after_exit_with_pipes_open": 100,
               "stderr_stimuli_undecodable": 1500, "stderr_stimuli_decodable": 1000,
               "caller_dir_supplied_via_torconfig": 400, "process_protocols_driven_directly": 120,
@@ -375,6 +378,23 @@ def payload(kind, pad=0, tail=b""):
     return chunks
 
 
+# what "plo" can be besides BOOTSTRAP PROGRESS=<case plo>: other STATUS_CLIENT events a bootstrapping Tor
+# really sends (control-spec 4.1.10) and BOOTSTRAP forms that are not a 100 % report
+OTHER_STATUS_CLIENT = [
+    "NOTICE CIRCUIT_ESTABLISHED",
+    "NOTICE CIRCUIT_NOT_ESTABLISHED REASON=CLOCK_JUMPED",
+    "NOTICE ENOUGH_DIR_INFO",
+    "NOTICE NOT_ENOUGH_DIR_INFO",
+    "WARN DANGEROUS_SOCKS PROTOCOL=SOCKS5 ADDRESS=93.184.216.34:80",
+    "NOTICE CONSENSUS_ARRIVED",
+    'NOTICE BOOTSTRAP PROGRESS=10 TAG=conn_done SUMMARY="Connected to a relay"',
+    'NOTICE BOOTSTRAP PROGRESS=85 TAG=ap_conn_done SUMMARY="Connected to a relay to build circuits"',
+    'WARN BOOTSTRAP PROGRESS=80 TAG=conn_or SUMMARY="Connecting to the Tor network" WARNING="Connection refused" '
+    'REASON=CONNECTREFUSED COUNT=5 RECOMMENDATION=warn HOSTID="0000000000000000000000000000000000000000" '
+    'HOSTADDR="192.0.2.1:9001"',
+]
+
+
 # configuration variants (rotated over the schedules, chosen by the seeded rnd)
 CTL = ["default-unix", "tcp", "unix-explicit"]
 CREATOR = ["reactor", "custom"]
@@ -409,6 +429,7 @@ def variant(rnd, dd, **fixed):
         "errb": rnd.choice(BYTE_KINDS + ["latin1", "long-utf8", "binary"]),
         "pad": rnd.choice([0, 1, 2]),
         "warm": rnd.choice([0, 0, 0, 50, 100]),
+        "plo_kind": rnd.choice([None, None, None] + list(range(len(OTHER_STATUS_CLIENT)))),
         "reject": None,
         "via": rnd.choice(["launch", "launch", "launch_tor"]),     # route used when dd == "config"
     }
@@ -1012,9 +1033,18 @@ class Run(object):
                 return False
             n = 100 if atom == "p100" else self.case["plo"]
             tag, summ = ("done", "Done") if n == 100 else ("loading_descriptors", "Loading relay descriptors")
+            text = 'NOTICE BOOTSTRAP PROGRESS=%d TAG=%s SUMMARY="%s"' % (n, tag, summ)
+            kind = self.case.get("plo_kind")
+            if atom == "plo" and kind is not None:
+                text = OTHER_STATUS_CLIENT[kind]
+                m = re.search(r"BOOTSTRAP PROGRESS=(\d+) TAG=(\S+)", text)
+                n = int(m.group(1)) if m else self.phase[0]
+                tag = m.group(2) if m else self.phase[1]
+                self.rec.count("other_status_client_events")
+                self.rec.seen("status_client_event_kinds", " ".join(text.split(" ")[:2]) + (
+                    " PROGRESS=%d" % n if m else ""))
             if n >= self.phase[0]:
                 self.phase = (n, tag, summ)
-            text = 'NOTICE BOOTSTRAP PROGRESS=%d TAG=%s SUMMARY="%s"' % (n, tag, summ)
             # Tor reports on every control connection that subscribed
             links = self.live_links()
             if self.case.get("evt_order") == "new-first":
